@@ -118,4 +118,23 @@ UmLaws == \A M \in UmChoices :
    /\ Len(InTableOrder(M)) = Cardinality(M)
    /\ (M = UmDep => UmRest(M) = UmUniverse \ UmDep)            \* the m-set equal to the dependent set is the plain element
 ExportUm == (Export /\ q = CHOOSE t \in Topologies : TRUE) => PrintT(<<"UM", {<<InTableOrder(M), InTableOrder(UmRest(M))>> : M \in UmChoices}>>)
+\* ---- rows of a rigid-body matrix scanned for xyz triples (growth: find_xyz_triples) --------------------------------------------------
+\* a matrix is a word over T (the three translation rows of a grid, in the grid's own frame and scale), R (its three rotation rows) and
+\* Z (one row that belongs to no grid).  Rows are <<letter position, index in the letter>>.  The scanner looks at rows j, j+1, j+2: they are
+\* a triple exactly when they are rows 1, 2, 3 of one T; then it marks them and moves on by three, otherwise by one.
+Letters == {"T", "R", "Z"}
+Words == UNION {[1..n -> Letters] : n \in 1..4}
+RowsOfLetter(w, k) == IF w[k] = "Z" THEN <<<<k, 1>>>> ELSE <<<<k, 1>>, <<k, 2>>, <<k, 3>>>>
+RECURSIVE RowsFrom(_, _)
+RowsFrom(w, k) == IF k > Len(w) THEN <<>> ELSE RowsOfLetter(w, k) \o RowsFrom(w, k + 1)
+IsTriple(w, rows, j) == /\ j + 2 <= Len(rows) /\ w[rows[j][1]] = "T"
+                        /\ rows[j][2] = 1 /\ rows[j + 1] = <<rows[j][1], 2>> /\ rows[j + 2] = <<rows[j][1], 3>>
+RECURSIVE ScanFrom(_, _, _)
+ScanFrom(w, rows, j) == IF j > Len(rows) THEN {} ELSE
+                        IF IsTriple(w, rows, j) THEN {j, j + 1, j + 2} \cup ScanFrom(w, rows, j + 3) ELSE ScanFrom(w, rows, j + 1)
+MarkDecl(w, rows) == {j \in 1..Len(rows) : w[rows[j][1]] = "T"}
+\* the scanner finds exactly the translation rows, whatever stands around them
+ScanLaws == \A w \in Words : LET rows == RowsFrom(w, 1) IN ScanFrom(w, rows, 1) = MarkDecl(w, rows)
+ExportScan == (Export /\ q = CHOOSE t \in Topologies : TRUE) =>
+   PrintT(<<"SCAN", {<<w, RowsFrom(w, 1), MarkDecl(w, RowsFrom(w, 1))>> : w \in Words}>>)
 =============================================================================
